@@ -302,11 +302,23 @@ func jsonSinkRule(R, what string, pkgFilter func(pkgRel, fn string) bool, floor 
 		}
 		sort.Strings(tf)
 		c.Extra[R+".decoded_fields"] = tf
+		// the functions named by the filter and the helpers of the same package they call
+		var scope []*core.DeclSite
+		inScope := map[*ast.FuncDecl]bool{}
 		for _, d := range c.P.FuncDecls() {
-			fn := core.DeclName(d.Pkg, d.Decl)
-			if !pkgFilter(core.Rel(d.Pkg.PkgPath), fn) {
+			if d.Decl.Body == nil || !pkgFilter(core.Rel(d.Pkg.PkgPath), core.DeclName(d.Pkg, d.Decl)) {
 				continue
 			}
+			d := d
+			for _, hd := range helperBodies(c, &d, 3) {
+				if !inScope[hd.Decl] {
+					inScope[hd.Decl] = true
+					scope = append(scope, hd)
+				}
+			}
+		}
+		for _, d := range scope {
+			fn := core.DeclName(d.Pkg, d.Decl)
 			n := 0
 			ast.Inspect(d.Decl.Body, func(nd ast.Node) bool {
 				call, ok := nd.(*ast.CallExpr)
